@@ -1305,4 +1305,316 @@ theorem start_tx_badGen (s : State) (env : Env) (r : Req) (allowed : Nat) (n : N
       · rw [hca]
 
 
+/-! ## 3i. the body of the `while read_tx_queue` loop -/
+
+theorem catches_badGen (e : PyExc) : catches "BadGeneratorError" e.name = false := by cases e <;> rfl
+
+section lookups2
+variable (c : Cfg) (a : Addr) (now : Nat) (rl : Limiter) (env : Env)
+theorem proc2_trigger (code : Int) : (txMeths2 c a now rl).proc "self._trigger_error" [pint code] env = trigP now code env := rfl
+theorem proc2_stop (ok : Bool) : (txMeths2 c a now rl).proc "self._stop_sending#success" [pbool ok] env = stopP ok env := rfl
+theorem fn2_depleted :
+    (txMeths2 c a now rl).fn "self.active_send_request.generator.depleted" [] env = genDepleted env := rfl
+end lookups2
+
+/-- without instrumentation, the model's state after the `except BadGeneratorError` handler does not depend on what the failed
+    `consume` did to the generator -/
+theorem badGen_fin (s0 : State) (r : Req) (k : Nat) (ha : s0.active = some r) (hni : r.instr = false) :
+    (((s0.consumeActive r k true).1.error .BadGenerator).stopSending false) = ((s0.error .BadGenerator).stopSending false) := by
+  obtain ⟨f1, -, -, -⟩ := consume_fields r k true
+  unfold State.consumeActive
+  simp only [hni, Bool.false_and, Bool.false_eq_true, if_false]
+  unfold State.stopSending State.error State.emit
+  simp only [ha, f1]
+
+/-- the locals the loop body writes when it starts a transmission -/
+def startLocals : List String := ["size_on_first_byte", "size_offset", "e"] ++ stLocals
+
+/-- the handler `except BadGeneratorError as e: self._trigger_error(e); self._stop_sending(success=False)` -/
+theorem handler_agrees (s : State) (env : Env) (n : Nat) (hR : Rep env s) (hn : 4 ≤ n) :
+    ∃ env', exec2B n (txM2 s) env handlerB = .ok (.next env') ∧ Rep env' ((s.error .BadGenerator).stopSending false) ∧
+      Frame ["e"] env env' := by
+  obtain ⟨m, rfl⟩ : ∃ m, n = m + 4 := ⟨n - 4, by omega⟩
+  have h0 : execStmt (txM2 s) env (.assign "e" (.call "__caught__" .nil)) =
+      .ok (.next (env.set "e" (pint (errCode .BadGenerator)))) := by
+    simp [execStmt, eval, evalArgs, bi_none, fn2_caught]
+  have R1 := hR.setOther (k := "e") (by decide) (pint (errCode .BadGenerator))
+  have h1 : execStmt (txM2 s) (env.set "e" (pint (errCode .BadGenerator)))
+      (.expr (.call "self._trigger_error" (.cons (.var "e") .nil))) =
+      .ok (.next ((env.set "e" (pint (errCode .BadGenerator))).set "#log"
+        (.list (histOf s.log ++ [.py (.int 0), .py (.int s.now), .py (.int (errCode .BadGenerator))])))) := by
+    simp [execStmt, eval, evalArgs, set_get, bi_none, proc2_trigger, trigP_rep R1]
+  obtain ⟨env', he, hR', hF⟩ := stopP_rep (R1.error .BadGenerator) false []
+  have h2 : execStmt (txM2 s) ((env.set "e" (pint (errCode .BadGenerator))).set "#log"
+        (.list (histOf s.log ++ [.py (.int 0), .py (.int s.now), .py (.int (errCode .BadGenerator))])))
+      (.expr (.call "self._stop_sending#success" (.cons .ff .nil))) = .ok (.next env') := by
+    simp [execStmt, eval, evalArgs, bi_none, proc2_stop, he]
+  refine ⟨env', ?_, hR', ?_⟩
+  · unfold handlerB
+    rw [e2_cons_next (e2_simple_ok rfl h0), e2_cons_next (e2_simple_ok rfl h1), e2_cons_next (e2_simple_ok rfl h2)]
+    rfl
+  · exact (((Frame.refl _ env).set (.inr (by decide)) _).set (.inl (by decide)) _).trans (hF.mono (by simp))
+
+theorem lenB_BS : lenB BS = 3 := rfl
+
+theorem stLocals_sub : ∀ k ∈ stLocals, k ∈ startLocals := by intro k hk; simp [startLocals, hk]
+theorem badGenLocals_sub : ∀ k ∈ ["total_size", "encode_length_on_2_first_bytes", "data_length"], k ∈ startLocals := by
+  intro k hk; simp [startLocals, stLocals] at hk ⊢; rcases hk with h | h | h <;> simp [h]
+
+/-- **the `else` branch of the loop body**: `before_start`, then `try: start_tx  except BadGeneratorError: ...` -/
+theorem startB_agrees (s : State) (env : Env) (r : Req) (allowed n : Nat) (hR : Rep2 env s) (ha : s.active = some r)
+    (hle : r.consumed ≤ r.size) (hni : r.instr = false)
+    (hal : env "allowed_bytes" = some (pint allowed)) (ho : env "output_msg" = some pnone)
+    (hdl : 8 ≤ s.cfg.txDl ∧ s.cfg.txDl ≤ 64) (hn : 20 ≤ n) :
+    match startTxR s r allowed with
+    | .raised _ e => ∃ env', exec2B n (txM2 s) env startB = .ok (.raised e.name env')
+    | .badGen s1 =>
+      ∃ env', exec2B n (txM2 s) env startB = .ok (.next env') ∧ Rep2 env' ((s1.error .BadGenerator).stopSending false) ∧
+        env' "output_msg" = some pnone ∧ Frame startLocals env env'
+    | .done s' out _ =>
+      ∃ env', exec2B n (txM2 s) env startB = .ok (.next env') ∧ Rep2 env' s' ∧ env' "output_msg" = some (optMsgPV out) ∧
+        Frame startLocals env env' := by
+  obtain ⟨m, rfl⟩ : ∃ m, n = m + 20 := ⟨n - 20, by omega⟩
+  obtain ⟨env4, he4, R4, hsof, hoff, hF4⟩ := before_start_agrees s env r hR.rep ha hle
+  have hbs : exec2B 5 (txM2 s) env BS = .ok (.next env4) := lift_ok lift_BS (by rw [depth_BS]; exact Nat.le_refl _) he4
+  have happ : exec2B (m + 20) (txM2 s) env startB = exec2B (m + 17) (txM2 s) env4 (.cons tryS .nil) :=
+    exec2B_append (txM2 s) BS (.cons tryS .nil) 5 (m + 17) env _ hbs (by omega)
+  rw [happ, exec2B_cons]
+  unfold tryS
+  rw [exec2S_tryCatch]
+  have hal4 : env4 "allowed_bytes" = some (pint allowed) := by rw [hF4 _ (by decide) (by decide)]; exact hal
+  have ho4 : env4 "output_msg" = some pnone := by rw [hF4 _ (by decide) (by decide)]; exact ho
+  have hst := start_tx_agrees s env4 r allowed R4 ha hsof hoff hal4 ho4 hdl
+  have hsq := sameQ_startTxR s r allowed
+  cases hr : startTxR s r allowed with
+  | raised s' e =>
+    rw [hr] at hst
+    simp only at hst ⊢
+    obtain ⟨env1, h1⟩ := lift_exc (n := m + 15) lift_ST (by rw [depth_ST]; omega) hst
+    rw [h1]
+    simp only [catches_badGen]
+    exact ⟨env1, rfl⟩
+  | done s' out imm =>
+    rw [hr] at hst hsq
+    simp only at hst ⊢
+    obtain ⟨env5, he5, R5, ho5, hF5⟩ := hst
+    rw [lift_ok (n := m + 15) lift_ST (by rw [depth_ST]; omega) he5]
+    have hF : Frame startLocals env env5 := (hF4.mono (by simp [startLocals])).trans (hF5.mono stLocals_sub)
+    exact ⟨env5, rfl, hR.of_frame R5 hF (by decide) hsq.1, ho5, hF⟩
+  | badGen s1 =>
+    rw [hr] at hsq
+    simp only
+    obtain ⟨env1, s0, k, h1, R1, ha0, hK0, hQ0, hF1, hs1⟩ := start_tx_badGen s env4 r allowed (m + 15) R4 ha hoff hdl (by omega) hr
+    rw [exec2B_congr (txM2_agrees s) _ _ _ lift_ST.av, h1]
+    have hcatch : catches "BadGeneratorError" "BadGeneratorError" = true := rfl
+    simp only [hcatch, if_true]
+    obtain ⟨env', he', R', hF'⟩ := handler_agrees s0 env1 (m + 15) R1 (by omega)
+    have hM : txM2 s0 = txM2 s := by unfold txM2; rw [hK0.1, hK0.2.1, hK0.2.2.1, hK0.2.2.2]
+    rw [hM] at he'
+    rw [he']
+    have hF : Frame startLocals env env' :=
+      ((hF4.mono (by simp [startLocals])).trans (hF1.mono badGenLocals_sub)).trans (hF'.mono (by simp [startLocals]))
+    refine ⟨env', rfl, ?_, ?_, hF⟩
+    · rw [hs1, badGen_fin s0 r k ha0 hni]
+      exact hR.of_frame R' hF (by decide) (((sameQ_error _ _).trans (sameQ_stopSending _ _)).1.trans hQ0.1)
+    · rw [hF' _ (by decide) (by decide), hF1 _ (by decide) (by decide)]; exact ho4
+
+
+/-! ## 3j. the `while read_tx_queue` loop, by induction on the queue -/
+
+theorem e2_while_false {n : Nat} {M : Meths} {env : Env} {c : PExpr} {b : PBlock}
+    (hc : eval M env c = .ok (pbool false)) : exec2S (n + 1) M env (.while_ c b) = .ok (.next env) := by
+  rw [exec2S_while, hc]; rfl
+theorem e2_while_next {n : Nat} {M : Meths} {env env1 : Env} {c : PExpr} {b : PBlock}
+    (hc : eval M env c = .ok (pbool true)) (hb : exec2B n M env b = .ok (.next env1)) :
+    exec2S (n + 1) M env (.while_ c b) = exec2S n M env1 (.while_ c b) := by
+  rw [exec2S_while, hc]
+  show (match exec2B n M env b with
+    | .ok (.next env1) => exec2S n M env1 (.while_ c b)
+    | .ok (.brk env1) => .ok (.next env1)
+    | r => r) = _
+  rw [hb]
+theorem e2_while_raised {n : Nat} {M : Meths} {env env1 : Env} {c : PExpr} {b : PBlock} {x : String}
+    (hc : eval M env c = .ok (pbool true)) (hb : exec2B n M env b = .ok (.raised x env1)) :
+    exec2S (n + 1) M env (.while_ c b) = .ok (.raised x env1) := by
+  rw [exec2S_while, hc]
+  show (match exec2B n M env b with
+    | .ok (.next env1) => exec2S n M env1 (.while_ c b)
+    | .ok (.brk env1) => .ok (.next env1)
+    | r => r) = _
+  rw [hb]
+
+theorem e2_single (n : Nat) (M : Meths) (env : Env) (s : PStmt) :
+    exec2B (n + 2) M env (.cons s .nil) = exec2S (n + 1) M env s := by
+  rw [exec2B_cons]
+  cases exec2S (n + 1) M env s with
+  | error e => rfl
+  | ok o => cases o <;> rfl
+
+/-- the names the loop writes besides the attributes of the object (`#tx_queue` is the queue itself) -/
+def loopLocals : List String := ["read_tx_queue", "#tx_queue"] ++ startLocals
+
+theorem startLocals_sub : ∀ k ∈ startLocals, k ∈ loopLocals := by intro k hk; simp [loopLocals, hk]
+
+theorem eval_rtq {M : Meths} {env : Env} {b : Bool} (h : env "read_tx_queue" = some (pbool b)) :
+    eval M env (.var "read_tx_queue") = .ok (pbool b) := by simp [eval, h]
+
+theorem assign_rtq_tt (M : Meths) (env : Env) :
+    execStmt M env (.assign "read_tx_queue" .tt) = .ok (.next (env.set "read_tx_queue" (pbool true))) := by
+  simp [execStmt, eval]
+theorem assign_rtq_ff (M : Meths) (env : Env) :
+    execStmt M env (.assign "read_tx_queue" .ff) = .ok (.next (env.set "read_tx_queue" (pbool false))) := by
+  simp [execStmt, eval]
+
+theorem eval_emptyCond {s : State} {env : Env} (hR : Rep2 env s) :
+    eval (txM2 s) env emptyCond = .ok (pbool (!s.txQueue.isEmpty)) := by
+  simp [emptyCond, eval, evalArgs, bi_none, fn2_empty, qEmptyP_rep hR, truthy_pbool]
+
+theorem Rep2.setOther {env : Env} {s : State} (hR : Rep2 env s) {k : String} (hk : k ∉ allKeys) (hk2 : k ≠ "#tx_queue") (v : PV) :
+    Rep2 (env.set k v) s :=
+  ⟨hR.rep.setOther hk v, by simp [set_get, Ne.symm hk2, hR.q]⟩
+
+/-- the `if` branch of the loop body: an empty-payload request is completed with success and skipped -/
+theorem skipB_agrees (s : State) (env : Env) (r : Req) (n : Nat) (hR : Rep2 env s) (ha : s.active = some r) (hn : 4 ≤ n) :
+    ∃ env', exec2B n (txM2 s) env skipB = .ok (.next env') ∧ Rep2 env' { s.emit (.done r.id true) with active := none } ∧
+      env' "read_tx_queue" = some (pbool true) ∧ Frame ["read_tx_queue"] env env' := by
+  obtain ⟨m, rfl⟩ : ∃ m, n = m + 4 := ⟨n - 4, by omega⟩
+  have h0 := assign_rtq_tt (txM2 s) env
+  have R1 := hR.rep.setOther (k := "read_tx_queue") (by decide) (pbool true)
+  have h1 : execStmt (txM2 s) (env.set "read_tx_queue" (pbool true))
+      (.expr (.call "self.active_send_request.complete" (.cons .tt .nil))) =
+      .ok (.next ((env.set "read_tx_queue" (pbool true)).set "#log"
+        (.list (histOf s.log ++ [.py (.int 1), .py (.int r.id), .py (.bool true)])))) := by
+    simp [execStmt, eval, evalArgs, bi_none, proc2_complete, completeP_rep R1 ha]
+  have h2 : execStmt (txM2 s) ((env.set "read_tx_queue" (pbool true)).set "#log"
+        (.list (histOf s.log ++ [.py (.int 1), .py (.int r.id), .py (.bool true)])))
+      (.assign "self.active_send_request" .none) =
+      .ok (.next (((env.set "read_tx_queue" (pbool true)).set "#log"
+        (.list (histOf s.log ++ [.py (.int 1), .py (.int r.id), .py (.bool true)]))).set "self.active_send_request" pnone)) := by
+    simp [execStmt, eval]
+  have hF : Frame ["read_tx_queue"] env (((env.set "read_tx_queue" (pbool true)).set "#log"
+        (.list (histOf s.log ++ [.py (.int 1), .py (.int r.id), .py (.bool true)]))).set "self.active_send_request" pnone) :=
+    (((Frame.refl _ env).set (.inr (by decide)) _).set (.inl (by decide)) _).set (.inl (by decide)) _
+  refine ⟨_, ?_, ⟨rep_complete R1 r true, ?_⟩, by simp [set_get], hF⟩
+  · unfold skipB
+    rw [e2_cons_next (e2_simple_ok rfl h0), e2_cons_next (e2_simple_ok rfl h1), e2_cons_next (e2_simple_ok rfl h2)]
+    rfl
+  · simp [set_get, State.emit, hR.q]
+
+/-- **the loop** `while read_tx_queue: ...`, entered with `read_tx_queue = True`: what `State.readTxQueue` computes.
+    Fuel: one unit per queued request, and 27 for the deepest body. -/
+theorem loop_agrees (allowed : Nat) : ∀ (q : List Req) (s : State) (env : Env) (n : Nat),
+    s.txQueue = q → Rep2 env s → env "read_tx_queue" = some (pbool true) →
+    env "allowed_bytes" = some (pint allowed) → env "output_msg" = some pnone →
+    (∀ r ∈ q, r.consumed ≤ r.size ∧ r.instr = false) → (8 ≤ s.cfg.txDl ∧ s.cfg.txDl ≤ 64) → q.length + 27 ≤ n →
+    match readTxQueueR s allowed q with
+    | .raised _ e => ∃ env', exec2S n (txM2 s) env loopS = .ok (.raised e.name env')
+    | .badGen _ => False
+    | .done s' out _ =>
+      ∃ env', exec2S n (txM2 s) env loopS = .ok (.next env') ∧ Rep2 env' s' ∧ env' "output_msg" = some (optMsgPV out) ∧
+        Frame loopLocals env env'
+  | [], s, env, n, hq, hR, hrtq, hal, ho, hreq, hdl, hn => by
+    obtain ⟨m, rfl⟩ : ∃ m, n = m + 5 := ⟨n - 5, by simp only [List.length_nil] at hn; omega⟩
+    unfold readTxQueueR
+    simp only
+    have h0 := assign_rtq_ff (txM2 s) env
+    have R1 := hR.setOther (k := "read_tx_queue") (by decide) (by decide) (pbool false)
+    have hc := eval_emptyCond R1
+    rw [hq] at hc
+    have hbody : exec2B (m + 4) (txM2 s) env loopBody = .ok (.next (env.set "read_tx_queue" (pbool false))) := by
+      unfold loopBody
+      rw [e2_cons_next (e2_simple_ok rfl h0), e2_single, e2_ite_false hc]
+      rfl
+    refine ⟨env.set "read_tx_queue" (pbool false), ?_, ?_, ?_, ?_⟩
+    · unfold loopS
+      rw [e2_while_next (eval_rtq hrtq) hbody, e2_while_false (eval_rtq (by simp [set_get]))]
+    · have : ({ s with txQueue := [] } : State) = s := by rw [← hq]
+      rw [this]; exact R1
+    · simp [set_get, ho, optMsgPV]
+    · exact (Frame.refl _ env).set (.inr (by simp [loopLocals])) _
+  | r :: rest, s, env, n, hq, hR, hrtq, hal, ho, hreq, hdl, hn => by
+    obtain ⟨m, rfl⟩ : ∃ m, n = m + 27 := ⟨n - 27, by simp only [List.length_cons] at hn; omega⟩
+    have hm : rest.length + 1 ≤ m := by simp only [List.length_cons] at hn; omega
+    obtain ⟨hle, hni⟩ := hreq r (by simp)
+    have h0 := assign_rtq_ff (txM2 s) env
+    have R1 := hR.setOther (k := "read_tx_queue") (by decide) (by decide) (pbool false)
+    have hc := eval_emptyCond R1
+    rw [hq] at hc
+    obtain ⟨env2, hget, R2, hF2⟩ := getP_rep R1 hq
+    have hg : execStmt (txM2 s) (env.set "read_tx_queue" (pbool false))
+        (.expr (.call "self.active_send_request:=self.tx_queue.get" .nil)) = .ok (.next env2) := by
+      simp [execStmt, evalArgs, bi_none, proc2_get, hget]
+    have hF02 : Frame ["read_tx_queue", "#tx_queue"] env env2 :=
+      ((Frame.refl _ env).set (.inr (by decide)) _).trans (hF2.mono (by simp))
+    have hd : eval (txM2 s) env2 deplCond = .ok (pbool r.depleted) := by
+      simp [deplCond, eval, evalArgs, bi_none, fn2_depleted, genDepleted_rep (R2.rep.req r rfl)]
+    have hrtq2 : env2 "read_tx_queue" = some (pbool false) := by
+      rw [hF2 _ (by decide) (by decide)]; simp [set_get]
+    have hal2 : env2 "allowed_bytes" = some (pint allowed) := by rw [hF02 _ (by decide) (by decide)]; exact hal
+    have ho2 : env2 "output_msg" = some pnone := by rw [hF02 _ (by decide) (by decide)]; exact ho
+    unfold readTxQueueR
+    by_cases hdep : r.depleted = true
+    · -- completed with success, skipped
+      simp only [hdep, if_true]
+      rw [hdep] at hd
+      obtain ⟨env3, he3, R3, hrtq3, hF3⟩ := skipB_agrees _ env2 r (m + 20) R2 rfl (by omega)
+      have hbody : exec2B (m + 26) (txM2 s) env loopBody = .ok (.next env3) := by
+        unfold loopBody
+        rw [e2_cons_next (e2_simple_ok rfl h0), e2_single, e2_ite_true hc]
+        unfold dequeueB
+        rw [e2_cons_next (e2_simple_ok rfl hg), e2_single, e2_ite_true hd]
+        exact he3
+      have hF03' : Frame ["read_tx_queue", "#tx_queue"] env env3 := hF02.trans (hF3.mono (by simp))
+      have hF03 : Frame loopLocals env env3 := hF03'.mono (by simp [loopLocals])
+      have ih := loop_agrees allowed rest _ env3 (m + 26) rfl R3 hrtq3
+        (by rw [hF03' _ (by decide) (by decide)]; exact hal) (by rw [hF03' _ (by decide) (by decide)]; exact ho)
+        (fun r' hr' => hreq r' (by simp [hr'])) hdl (by omega)
+      have hw : exec2S (m + 27) (txM2 s) env loopS = exec2S (m + 26) (txM2 s) env3 loopS := by
+        unfold loopS
+        exact e2_while_next (eval_rtq hrtq) hbody
+      rw [hw]
+      revert ih
+      generalize readTxQueueR _ allowed rest = o
+      intro ih
+      cases o with
+      | raised s' e => exact ih
+      | badGen s' => exact ih
+      | done s' out imm =>
+        obtain ⟨env', h1, h2, h3, h4⟩ := ih
+        exact ⟨env', h1, h2, h3, hF03.trans h4⟩
+    · -- a transmission starts
+      simp only [hdep, if_false, Bool.false_eq_true]
+      have hdep' : r.depleted = false := by cases h : r.depleted <;> simp_all
+      rw [hdep'] at hd
+      have hst := startB_agrees _ env2 r allowed (m + 20) R2 rfl hle hni hal2 ho2 hdl (by omega)
+      have hbody : exec2B (m + 26) (txM2 s) env loopBody = exec2B (m + 20) (txM2 s) env2 startB := by
+        unfold loopBody
+        rw [e2_cons_next (e2_simple_ok rfl h0), e2_single, e2_ite_true hc]
+        unfold dequeueB
+        rw [e2_cons_next (e2_simple_ok rfl hg), e2_single, e2_ite_false hd]
+      revert hst
+      generalize startTxR _ r allowed = o
+      intro hst
+      cases o with
+      | raised s' e =>
+        obtain ⟨env', h1⟩ := hst
+        refine ⟨env', ?_⟩
+        unfold loopS
+        exact e2_while_raised (eval_rtq hrtq) (hbody.trans h1)
+      | badGen s1 =>
+        obtain ⟨env', h1, h2, h3, h4⟩ := hst
+        have hF : Frame loopLocals env env' := (hF02.mono (by simp [loopLocals])).trans (h4.mono startLocals_sub)
+        refine ⟨env', ?_, h2, by simpa [optMsgPV] using h3, hF⟩
+        unfold loopS
+        rw [e2_while_next (eval_rtq hrtq) (hbody.trans h1)]
+        exact e2_while_false (eval_rtq (by rw [h4 _ (by decide) (by decide)]; exact hrtq2))
+      | done s' out imm =>
+        obtain ⟨env', h1, h2, h3, h4⟩ := hst
+        have hF : Frame loopLocals env env' := (hF02.mono (by simp [loopLocals])).trans (h4.mono startLocals_sub)
+        refine ⟨env', ?_, h2, h3, hF⟩
+        unfold loopS
+        rw [e2_while_next (eval_rtq hrtq) (hbody.trans h1)]
+        exact e2_while_false (eval_rtq (by rw [h4 _ (by decide) (by decide)]; exact hrtq2))
+
+
 end Isotp.PyAgree
